@@ -19,7 +19,9 @@ A  `A|holds|ops`   raw CTrait API on three traits and six payload objects, argum
    right after the operation and before any collection).  Every payload has a finalizer that looks at every field
    of every trait: a dying object that is still reachable through a trait is reported (`!i`).
    Twin: Driver `handleA` (Model.RefLedger raw-trait machine: events incref / decref / store, checkpoints after each
-   decref).
+   decref).  History: this stream found F79 (set_validate released the old validator before storing the new one;
+   `!i` marks) and F79b (clone / __setstate__ / _set_property overwrote references without releasing them), repaired
+   in /repo d96fc77 and 86511b4; both signatures are violations again.
 """
 import json
 
